@@ -1,19 +1,35 @@
 from specs import KEYS, CHECKS, unit
 
+# unix_volume.go is replaced (in the build overlay only) by a copy that
+# /verif/tools/instrument generates from the *current* working-tree file.
 _GEN = [{'dst': 'services/keepstore/unix_volume.go', 'out': 'unix_volume_instr.go',
          'cmd': ['go', 'run', '-C', '{verif}/tools/instrument', '.', '{repo}/services/keepstore/unix_volume.go', '{out}']}]
 _HOOKS = {'services/keepstore/verif_points.go': 'harness/keepstore_c02/hooks/verif_points.go'}
 
 # harness/keepstore_c02/*_test.go also holds the helpers shared with C04
-# (handler set-up on scratch Directory volumes, the point controller).
+# (handler set-up on scratch Directory volumes, point classification).
 KEYS['keepstore_c02'] = {'pkg': 'services/keepstore', 'hooks': _HOOKS, 'generated': _GEN}
 
 CHECKS['C02'] = {
     'ready': False,
     'level': 'fault_enumeration',
-    'rule': 'TODO',
-    'assumptions': [],
+    'exhaustive': False,
+    'rule': 'rapid generates a case = (block size class relative to the write chunk, chunk size, pre-state of the target hash on each of '
+            '1-2 Directory volumes [absent / empty dir / intact / truncated / bit-flipped / extended / other block / stale tmp file / intact+stale tmp], '
+            'read-only flag, Serialize, volume order, round-robin start, bystander block in the same directory). An uninterrupted dry run of the PUT '
+            'records every instrumented filesystem point reached; then EVERY point k x every action (die = runtime.Goexit of the goroutine at the point and of '
+            'every goroutine that reaches a later point; cancel = client disconnect at the point [two variants in the thorough tier]; fail = the step returns EIO, sticky) '
+            'is executed from the same pre-state and a fresh handler on the same directories is queried. One evaluation = one (case, point, action) execution. '
+            'Non-trivial = the point lies in the temp-file-creation..rename window of WriteBlock, or some volume has a non-empty pre-state. '
+            'distinct = distinct (size class, chunk, Serialize, pre-states, order, point label without line number, occurrence index, action). '
+            'The enumeration of points is exhaustive per generated case only (cases themselves are sampled).',
+    'assumptions': [
+        'process death is simulated by runtime.Goexit at an instrumented point; Go file writes are unbuffered, deferred unlock/Close calls that still run have no on-disk effect '
+        '(cross-checked in the thorough tier by a re-executed child that is really SIGKILLed)',
+        'kill points are the statement boundaries found by the AST instrumenter in unix_volume.go plus every data chunk and half-chunk of the block copy; finer instants (inside one syscall) are not separated',
+        'power loss / fsync durability is not modelled (the property speaks of process death)',
+    ],
     'units': [
-        unit('crash', 'keepstore_c02', '^TestVerifC02Crash$', {'shards': 16, 'checks': 3}, {'shards': 16, 'checks': 40, 'timeout': 1500}),
+        unit('crash', 'keepstore_c02', '^TestVerifC02Crash$', {'shards': 16, 'checks': 4}, {'shards': 16, 'checks': 45, 'timeout': 1500}),
     ],
 }
